@@ -3,8 +3,8 @@
 import json, os, shutil, sys
 prop, x, det = sys.argv[1:4]
 needs = " ".join(sys.argv[4:])
-src = f"/tmp/wt_{prop}/_seeded"
-name = sys.argv[0] and f"{prop}-{x}"
+src = os.environ.get("SEEDED_SRC", f"/tmp/wt_{prop}/_seeded")
+name = os.environ.get("SEEDED_NAME", f"{prop}-{x}")
 dst = f"/verif/seeded/{name}"
 os.makedirs(dst, exist_ok=True)
 shutil.copy(f"{src}/mutation{x}.diff", f"{dst}/patch.diff")
